@@ -103,6 +103,8 @@ def pointwise(ck, rid, fn, value, why):
     T = Terms(fn)
     src = pnames(ck, fn, 1)[0]
     stores = events(fn, lambda ev: ev.get("e") == "asg" and E.strip(ev["lhs"]).get("k") != "ref")
+    if len(stores) == 1 and match(stores[0]["lhs"], ("call", "std::vector::operator[]", ("this", CHARS), [None])):
+        return pointwise_indexed(ck, rid, fn, value, why, src, stores[0])
     ck.need(len(stores) == 1 and short(stores[0]["lhs"]) == "operator*" and on_local(stores[0]["lhs"]), "C50: %s does not have exactly one store, through an iterator" % fn.name)
     D = on_local(stores[0]["lhs"])
     tests = [t for t in find(ck, fn, ("call", "~operator*", None, []), "iterator dereferences", 2) if on_local(t) != D]
@@ -151,6 +153,39 @@ def pointwise(ck, rid, fn, value, why):
             ck.violation(rid + ".lockstep", "%s|%s|cursors-not-in-lockstep" % (rid, fn.name), s.where(), "%s: an iteration ends with %s advanced %s time(s) and %+d steps ahead of %s %s"
                          % (fn.name, S, s.env.get("%adv"), s.env.get("%lead", 0), D, why), fl.witness(s))
     gate(ck, rid + ".range", T, fl, is_ret, {S: 1}, ends[0], "=", "return", why="(the tail of the other set would be ignored)")
+    returns_self(ck, rid, fn)
+
+
+def pointwise_indexed(ck, rid, fn, value, why, src, store):
+    """the index form of a pointwise mutator: chars_[i] = value gated by src.chars_[i] for the same local i, which starts at 0, only ever moves by ++ and
+    leaves the loop only when i < N fails for N >= 256 (or a chars_.size())"""
+    idx = E.strip(E.strip(store["lhs"])["a"][0])
+    ck.need(idx.get("k") == "ref" and idx.get("dk") == "local", "C50: %s stores at a computed index %s" % (fn.name, E.key(idx)))
+    I = idx["d"]
+    same_i = E.M(lambda t: match(t, ("call", "std::vector::operator[]", ("field", CHARS, ("ref", src)), [("ref", I)])), "%s.chars_[%s]" % (src, I))
+    fl = ck.flow(fn)
+    for s in ck.sites(fl, lambda ev: ev is store, "store", 1):
+        if E.const(s.ev.get("rhs")) == value:
+            ck.ok(rid + ".value", s.where(), "%s: stored value is %d" % (fn.name, value))
+        else:
+            ck.violation(rid + ".value", "%s|%s|stored-value" % (rid, fn.name), s.where(), "%s stores %s, not %d %s" % (fn.name, E.key(s.ev.get("rhs")), value, why))
+        if s.has(same_i, True):
+            ck.ok(rid + ".gated", s.where(), "%s: chars_[%s] is changed only with %s.chars_[%s] set" % (fn.name, I, src, I))
+        else:
+            ck.violation(rid + ".gated", "%s|%s|store|needs:%s.chars_[%s]" % (rid, fn.name, src, I), s.where(), "%s: chars_[%s] can be changed without %s.chars_[%s] being set "
+                         "(elements outside the other set would change) %s" % (fn.name, I, src, I, why), fl.witness(s))
+    moves = events(fn, lambda ev: ev.get("e") == "asg" and match(ev.get("lhs"), ("ref", I)))
+    inits = [ev.get("init") for ev in events(fn, lambda ev: ev.get("e") == "decl" and ev.get("d") == I)]
+    good = len(inits) == 1 and E.const(inits[0]) == 0 and moves and all(ev.get("op") == "++" for ev in moves)
+    shape(ck, rid + ".range", fn, fn.line, "index %s starts at 0 and only moves by ++" % I, good, True, "init %s, updates %s" % ([E.key(i) for i in inits], sorted({ev.get("op") for ev in moves})))
+    full = E.M(lambda t: E.const(t) is not None and E.const(t) >= 256 or (short(t) == "size" and any(n.get("m") == CHARS for n in E.walk(t))), "N >= 256 | chars_.size()")
+    bound = E.m_cmp("<", E.m_is_ref(I), full)
+    for s in ck.sites(fl, is_ret, "return", 1):
+        if s.has(bound, False):
+            ck.ok(rid + ".range", s.where(), "%s: returns only once %s has run over all 256 elements" % (fn.name, I))
+        else:
+            ck.violation(rid + ".range", "%s|%s|return|needs:%s>=256" % (rid, fn.name, I), s.where(), "%s can return before %s has visited every one of the 256 elements "
+                         "(the tail of the other set would be ignored; facts: %s) %s" % (fn.name, I, ", ".join(s.fact_keys())[:160], why), fl.witness(s))
     returns_self(ck, rid, fn)
 
 
